@@ -235,8 +235,21 @@ CHECKS = [
      "text": "Bounded verification: for every crash point of the run the restarted run finishes and returns the bit-identical final "
              "samples and mean (strategy 'all': holds after fix 728a40a; strategy 'latest': known findings, in-place overwrite).",
      "design_ref": "DESIGN.md 4/C25"},
+    {"property_id": "C27", "engine": "A", "category": "other", "technique": "symbolic configuration of the real classic optimize_kl: boolean options are objects whose truth value is decided by solver-checked forking when the driver inspects them, per-iteration options are passed in their documented callable form and return z3 integers concretised when the driver asks for them; an option not inspected on a path stays symbolic, so the explored paths cover every combination of option values in the bound; each path is a concrete float64 run checked against the documented behaviour of its configuration",
+     "note": "Concrete float64 runs (the solver explores the configuration space only). Bounds: 2 (3) global iterations, n_samples in {2,0,1}, constants {[], [a]}, point_estimates {[], [b], [a]}, transitions {None, average}, fresh_stochasticity / terminate_callback per iteration, inspect_callback arities, sanity_checks, dry_run, return_final_position; output directory / save strategy / plotting / export enumerated by scenarios. MPI, geoVI sampling, devices, resume (C25) and the numerical quality of the result are outside the claim.",
+     "text": "Bounded verification: for every combination of the option values in the bound the run completes, returns the documented "
+             "form, calls the callbacks as documented, keeps constants, draws no samples for point estimates, reuses the random stream "
+             "exactly when fresh_stochasticity is False, writes the files of the save strategy, and leaves the global RNG stack holding "
+             "the same seed-sequence objects (holds after fixes 4c86fdc, 4d7f886).",
+     "design_ref": "DESIGN.md 4/C27"},
+    {"property_id": "C28", "engine": "A", "category": "other", "technique": "the real classic CorrelatedFieldMaker (front end A, object arrays; Hartley kernel replaced by its DFT contract) and the real JAX CorrelatedFieldMaker (jaxpr) are executed on symbolic hyperparameter latents (z3 reals; exp uninterpreted with positivity / monotonicity axioms, sqrt algebraic); the field is affine in the harmonic excitations and is compared / analysed column by column (xi = 0, xi = e_j); obligations are discharged by z3 (NRA)",
+     "note": "Bounds: non-parametric amplitude (power parametrisation, with / without flexibility and asperity), grids 4, 6, 8, 2x4, 3x3, 4x4 (4x6 thorough), products of two spaces, concrete distances and prior parameters, both Hartley conventions for the agreement. exp applications whose arguments agree up to 1e-9 in every coefficient are identified (differently rounded float constants of the two code bases); comparisons are relative 1e-9. Matern amplitudes, the amplitude parametrisation, HEALPix spaces, total_N > 0 and correlated_fields_simple are outside the claim.",
+     "text": "Bounded symbolic verification: for ALL hyperparameter latents the classic and the JAX model return the same offset and the same "
+             "response to every harmonic excitation; the expected spatial variance about the spatial mean equals total_fluctuation^2 and, for "
+             "product spectra, the slice / average variances equal slice_fluctuation^2 / average_fluctuation^2 on every grid of the bound.",
+     "design_ref": "DESIGN.md 4/C28"},
     {"property_id": "C24", "engine": "B", "category": "other", "technique": "crash-point exploration of the real nifty.re optimize_kl: the index of the file-system mutation at which the run is killed and the kill variant are z3 integers concretised by solver-decided forking; each path executes the real run, kills it (vf.crash), restarts it with resume=True and compares samples and optimisation state with the uninterrupted run",
-     "note": "Concrete float64 runs (the solver explores the crash-point space only). Bounds: 3 iterations, 2 keys, sample modes linear_resample (quick), nonlinear_resample / nonlinear_update (thorough), jit off, one crash per history.",
+     "note": "Concrete float64 runs (the solver explores the crash-point space only). Bounds: 3 iterations, 2 keys, sample modes linear_resample / linear_sample (quick), nonlinear_resample / nonlinear_update (thorough), jit off, one crash per history.",
      "text": "Bounded verification: for every crash point of the run (before each open-for-write / replace below odir and after each "
              "create/truncate) the restarted run finishes and returns bit-identical position and residuals, the same iteration counter "
              "and PRNG key (holds after fix 700b56c: last.pkl is replaced atomically).",
@@ -277,8 +290,6 @@ CHECKS = [
 ALL = [f"C{i:02d}" for i in range(1, 37)]
 REASONS = {
     "C08_unused": "the domain classes coerce every geometry parameter to float64 NumPy arrays in their constructors and compute k-lengths, bins and volumes with arange / searchsorted / bincount / unique on those arrays: no symbolic input survives construction, so a solver would only re-evaluate concrete numbers; the cache-identity and pickling half of the property is object identity of concrete runs, which is decided by executing, not by a solver (volume-weighted contractions on these domains are covered by C06, harmonic volume factors by C09)",
-    "C27": "quantifies over end-to-end configurations of whole VI runs (sampling, CG, plotting, HDF5, pickling); nothing in it is an input a solver could make symbolic and the run itself cannot be encoded",
-    "C28": "equality of two deep transcendental pipelines (ducc Hartley transforms on grids >= 4, cumulative sums of exp/log/sqrt, special functions) and an expectation over the whole pipeline: outside NRA+UF reach",
 }
 claimed = {c["property_id"] for c in CHECKS}
 NOT_APPLICABLE = [{"property_id": p, "reason": REASONS.get(p, "check not built yet in this session (see DESIGN.md build order); not claimed until its harness exists")}
